@@ -164,6 +164,12 @@ class NoiseDevice:
             self.tx_nonce += 1
         return noise_outer(self.encrypt_with(key or self.send_key, nonce, type_, payload))
 
+    def short_frame(self, n: int) -> bytes:
+        """A frame that authenticates but whose plaintext (n < 4 bytes) is too short to hold the inner header."""
+        nonce = self.tx_nonce
+        self.tx_nonce += 1
+        return noise_outer(ChaCha20Poly1305(self.send_key).encrypt(nonce_bytes(nonce), bytes(n), None))
+
     # -- what the device reads
     def decrypt_client(self, body: bytes, nonce: int):
         """Try to open a client frame with an explicit nonce -> (type, payload, declared_len) or None."""
